@@ -123,6 +123,19 @@ def run(ck, ctx):
 
         # ------------------------------------------------------------ R11.3 equivariance
         def r113(name=name, r1=r1, entry=entry):
+            equivariance(ck, "R11.3", I, name, r1, entry)
+        ck.guard(r113, f"R11.3 {name}")
+
+    # ---------------------------------------------------------------- R11.4
+    def r114():
+        r114_body(ck, R, I)
+    ck.guard(r114, "R11.4")
+
+
+def equivariance(ck, RULE, I, name, r1, entry):
+    g = I.g
+    if True:
+        if True:
             lc = LenClass(I, rowwise_select_funcs={"vec_1d_interp"})
             for n in walk([I.snapshot(r1.value, r1.st)]):
                 # inputs that are not per-event arrays are scalars / settings
@@ -149,7 +162,7 @@ def run(ck, ctx):
             for c in lc.conflicts:
                 f = c.node.fn.qualname if c.node.fn is not None else "?"
                 if f in scope:
-                    ck.ob("R11.3", f"{name}: arrays combined element-wise belong to one event population "
+                    ck.ob(RULE, f"{name}: arrays combined element-wise belong to one event population "
                           f"[{g.show(c.node, 1)} at {c.node.where()}]", False, c.node, f,
                           f"{c.what}: {lc.show(c.a)} vs {lc.show(c.b)}", construct=f"{f}: {c.what}")
             npos = 0
@@ -161,7 +174,7 @@ def run(ck, ctx):
                 if key in ALLOW_POS:
                     continue
                 npos += 1
-                ck.ob("R11.3", f"{name}: no position-dependent use of the event axis [{g.show(node, 2)}]", False,
+                ck.ob(RULE, f"{name}: no position-dependent use of the event axis [{g.show(node, 2)}]", False,
                       node, f, f"slice / integer index along the event axis of {lc.show(c)}",
                       construct=f"{f}: positional index on a per-event array")
             if not entry.scalar_result and entry.per_event_inputs:
@@ -184,19 +197,20 @@ def run(ck, ctx):
                                 is_def(lc.of(n.args[0])) and len(n.args) == 1:
                             bad.append((n, n.fn.qualname if n.fn else "?", n.attr[0]))
                 for n, f, s in bad[:3]:
-                    ck.ob("R11.3", f"{name}: no batch-wide reduction feeds a per-event output [{s} at {n.where()}]",
+                    ck.ob(RULE, f"{name}: no batch-wide reduction feeds a per-event output [{s} at {n.where()}]",
                           False, n, f, f"{s}() over the event axis couples events (permutation / split would "
                           "change per-event values)", construct=f"{f}: {s} over the event axis feeds a column")
                 n_def = sum(1 for o in outs if is_def(lc.of(o)))
-                ck.ob("R11.3", f"{name}: outputs are per-event arrays of the input population, built without "
+                ck.ob(RULE, f"{name}: outputs are per-event arrays of the input population, built without "
                       "position-dependent or batch-coupling operations", npos == 0 and not bad and
                       not [c for c in lc.conflicts if (c.node.fn.qualname if c.node.fn else "?") in scope], v, name,
                       f"{n_def}/{len(outs)} outputs have a definite event population: " +
                       ", ".join(lc.show(lc.of(o)) for o in outs))
-        ck.guard(r113, f"R11.3 {name}")
 
-    # ---------------------------------------------------------------- R11.4
-    def r114():
+
+def r114_body(ck, R, I):
+    g = I.g
+    if True:
         r1 = R.runs.get("Taus.tau_energy", [None])[0]
         if r1 is None or r1.value is None:
             raise AnalysisError("Taus.tau_energy not analysed")
@@ -213,7 +227,6 @@ def run(ck, ctx):
                 b0, _ = scatter_chain(v)
                 ck.ob("R11.4", "the sampler returns the iterator's allocated operand (complete beyond the 8192-element "
                       "buffer)", b0.op == "NdAlloc", sc, "grid_cdf_sampler.sample", f"returns {g.show(b0, 1)}")
-    ck.guard(r114, "R11.4")
 
 
 def _allow_key(f, node):
